@@ -48,10 +48,13 @@ var props = map[string]propCfg{
 	"C02": {Level: "exploration", Variants: []variant{{Name: "plain"}}, CPUHang: 20},
 	"C03": {Level: "exploration", Variants: []variant{{Name: "plain"}}, CPUHang: 20},
 	"C04": {Level: "exploration", Variants: []variant{{Name: "plain"}}, CPUHang: 20},
-	"C05": {Level: "exploration", Variants: []variant{{Name: "overlay", Overlay: atpFiles}, {Name: "race", Race: true}}},
-	"C06": {Level: "exploration", Variants: []variant{{Name: "overlay", Overlay: atpFiles}}},
-	"C07": {Level: "fault_enumeration", Variants: []variant{{Name: "plain"}, {Name: "race", Race: true}}},
-	"C08": {Level: "fault_enumeration", Variants: []variant{{Name: "plain"}}},
+	// The monitored sessions of C05-C08 are journalled one by one and end on a logical verdict within moments; their
+	// monitor polls, so the CPU-time rule is set well above what polling for a whole watchdog period can use. What
+	// it catches there is an SDK goroutine that computes forever (the monitor keeps such a case open, see rig.Monitor).
+	"C05": {Level: "exploration", Variants: []variant{{Name: "overlay", Overlay: atpFiles}, {Name: "race", Race: true}}, CPUHang: 60},
+	"C06": {Level: "exploration", Variants: []variant{{Name: "overlay", Overlay: atpFiles}}, CPUHang: 60},
+	"C07": {Level: "fault_enumeration", Variants: []variant{{Name: "plain"}, {Name: "race", Race: true}}, CPUHang: 60},
+	"C08": {Level: "fault_enumeration", Variants: []variant{{Name: "plain"}}, CPUHang: 60},
 	"C09": {Level: "exploration", Variants: []variant{{Name: "plain"}}, CPUHang: 20},
 	"C10": {Level: "fault_enumeration", Variants: []variant{{Name: "plain"}}, CPUHang: 20},
 	"C11": {Level: "exploration", Variants: []variant{{Name: "plain"}, {Name: "overlay", Overlay: atpFiles}, {Name: "race", Race: true}}},
@@ -578,7 +581,9 @@ func watchAndWait(cmd *exec.Cmd, journal string, cpuHang float64) (string, error
 		if cpu-cpuAtIdle > 0.3 || hasChildren(cmd.Process.Pid) {
 			idleSince, cpuAtIdle = time.Now(), cpu // it is computing, or waiting for a child process it started
 		}
-		if cpuHang > 0 && cpu-cpuAtChange > cpuHang {
+		if cpuHang > 0 && cpu-cpuAtChange > cpuHang && (cpuHang < 60 || strings.HasPrefix(cur, "B ")) {
+			// (the session-based checks, whose rule is 60 s, prepare their cases by running unperturbed baseline
+			// sessions first: the rule applies to journalled cases only)
 			verdict = "cpu-hang"
 		} else if strings.HasPrefix(cur, "B ") && time.Since(idleSince).Seconds() > 120 {
 			// one case open, and for two minutes the process has neither used the processor nor had a child to wait
